@@ -448,7 +448,9 @@ def g_elem(rng, kind=None, kinds=None):
 
 
 def g_qs(rng, pool=None):
-    pool = pool or [0, 1, 2, 3, Fraction(1, 2), Fraction(3, 2), Fraction(5, 2), 4, Fraction(1, 4)]
+    # dyadic and non-dyadic positions (triplet / quintuplet onsets are where an inexact comparison of beats shows: seed C18-4)
+    pool = pool or [0, 1, 2, 3, Fraction(1, 2), Fraction(3, 2), Fraction(5, 2), 4, Fraction(1, 4),
+                    Fraction(1, 3), Fraction(2, 3), Fraction(4, 3), Fraction(5, 3), Fraction(1, 6), Fraction(2, 5)]
     return [q2(x) for x in rng.sample(pool, rng.randint(1, 3))]
 
 
@@ -622,13 +624,14 @@ def kw_sx(kw):
 def g_kwargs(rng):
     kw = {}
     if rng.random() < 0.6:
-        kw['chord_beat'] = rng.choice([0, 1, Fraction(3, 2), 2, 4])
+        kw['chord_beat'] = rng.choice([0, 1, Fraction(3, 2), 2, 4, Fraction(4, 3), Fraction(2, 3), Fraction(7, 5)])
     if rng.random() < 0.6:
         kw['chord_idx'] = rng.randint(0, 3)
     if rng.random() < 0.6:
         kw['instrument'] = rng.choice(PARTS)
     if rng.random() < 0.6:
-        kw['beat'] = rng.choice([0, Fraction(1, 2), 1, Fraction(3, 2), 2, 3])
+        kw['beat'] = rng.choice([0, Fraction(1, 2), 1, Fraction(3, 2), 2, 3, Fraction(1, 3), Fraction(2, 3), Fraction(4, 3),
+                                 Fraction(1, 6), Fraction(2, 5)])    # non-dyadic positions too (seed C18-4)
     if rng.random() < 0.6:
         kw['idx'] = rng.randint(0, 4)
     return kw
